@@ -16,6 +16,10 @@ def make_obs(ctx):
         obs.append(Ob('precalc-secs:%s' % tag, H, 'h_precalc_secs', {'FLAGS': fl, 'DBITS': db}, units=UNITS,
                       group='precalc-secs', timeout=900,
                       bounds={'duration': '|seconds| < 2^%d' % db, 'units requested': tag}))
+    obs.append(Ob('totals', H, 'h_totals', {}, units=UNITS, group='totals', timeout=600,
+                  bounds={'duration': '|count| < 2^40 of s, m or h'}))
+    obs.append(Ob('precalc-secs:S:wide', H, 'h_precalc_secs', {'FLAGS': 16, 'DBITS': 40}, units=UNITS, group='precalc-secs', timeout=900,
+                  bounds={'duration': '|seconds| < 2^40', 'units requested': 'S'}))
     for fl in range(0, 8):
         tag = ''.join('Yqm'[i] for i in range(3) if fl >> i & 1) or '-'
         obs.append(Ob('precalc-ymd:%s' % tag, H, 'h_precalc_ymd', {'FLAGS': fl}, units=UNITS, group='precalc-ymd',
